@@ -152,6 +152,35 @@ CLAIMED["C11"] = {
     "design": "DESIGN.md section 3 C11",
 }
 
+CLAIMED["C05"] = {
+    "text": "Bounded model checking of the real FmtStr.from_str/parse/peel_off_esc_code/token_type/parse_args: (a) round "
+            "trip from_str(str(f)) with SYMBOLIC run texts (any code point but ESC/0x9b: newline, CR, '[', digits, 'm' "
+            "included) for runs with at most one displayed attribute (quick) / all 14 reduced patterns (thorough), and "
+            "with catalogue texts for 1..3 runs over the full reduced pattern set; (b) grammar strings "
+            "(text | ESC[p1;..;pn m)* - one sequence with <= 1 parameter and symbolic text holes, and one sequence x 2 "
+            "parameters (all 22x22 supported codes), two and three sequences over a covering parameter set with catalogue "
+            "holes - compared per character with an independent SGR state machine.",
+    "note": "Trusted: CPython, CrossHair + z3 and its regex model (engine patch for groupdict; violations are replayed with "
+            "CPython's re). The regex model costs ~1 s per path on strings with several escape sequences, so richer "
+            "structures use catalogue texts (class representatives) enumerated by the solver instead of symbolic "
+            "characters; quick samples them deterministically per VERIF_SEED.",
+    "technique": TECH + "; native symbolic strings for short inputs, solver-enumerated catalogues for structure",
+    "design": "DESIGN.md section 3 C05",
+}
+CLAIMED["C17"] = {
+    "text": "Bounded model checking of the real fmtstr/from_str/remove_ansi/parse chain on arbitrary strings: every string of "
+            "length <= 3 over 8 character classes, length 4 starting with ESC over 7 classes (thorough: length <= 4 over 8, "
+            "<= 3 over 14, 5-6 with ESC[ prefix), where the class of each position is enumerated by the solver and the "
+            "character is SYMBOLIC within its class; plus structured words (text, one CSI with numeric parameters, text) "
+            "and real-world samples with symbolic text holes. Asserted: no exception; ESC-free input verbatim and "
+            "unformatted; result text is a subsequence of the input that keeps every character outside escape-like "
+            "regions (independent ECMA-48 scanner); exact removal for ordinary numeric CSI sequences; fmtstr and from_str agree.",
+    "note": "Trusted: CPython, CrossHair + z3 and its regex model; the scanner. Inside malformed escape-like regions "
+            "(truncated, private, 8-bit CSI, two-byte escapes) characters may be kept or removed.",
+    "technique": TECH + "; class-selector + symbolic-offset characters, ECMA-48 scanner oracle",
+    "design": "DESIGN.md section 3 C17",
+}
+
 NOT_YET = {}
 
 ALL = ["C%02d" % i for i in range(1, 21)]
